@@ -11,5 +11,5 @@ CONSTANTS
   Opener = "A"
   F6Quirk = TRUE
   F7Quirk = TRUE
-INVARIANTS ErrAgree ConformCounters ConformNet ConformChains ConformLogs
+INVARIANTS ErrAgree ConformCounters ConformNet ConformChains ConformLogs ConformShadow
 CHECK_DEADLOCK TRUE
